@@ -285,11 +285,15 @@ def _deque_rows(term, lookbacks_param):
         if s[0] == 'call' and s[1][0] in ('ext', 'meth') and s[1][1] in ('DICT.fromkeys', 'dict.fromkeys', 'fromkeys', 'builtins.dict.fromkeys') and len(s[2]) >= 2 and \
                 any(z[0] == 'call' and z[1] == ('ext', 'collections.deque') for z in T.subterms(s[2][-1])):
             rows.append('shared')
-        if not (s[0] == 'comp' and s[1] == 'dict'):
+        if s[0] == 'call' and s[1] == ('ext', 'SETITEM') and len(s[2]) == 3 and s[2][2][0] == 'call' and s[2][2][1] == ('ext', 'collections.deque'):
+            # table[key] = deque(...) inside statement loops: the same row, its variables being loop elements
+            c = ('comp', 'dict', ('tuple', (s[2][1], s[2][2])), ())
+        elif not (s[0] == 'comp' and s[1] == 'dict'):
             continue
-        if not any(z[0] == 'call' and z[1] == ('ext', 'collections.deque') for z in T.subterms(s[2])):
+        elif not any(z[0] == 'call' and z[1] == ('ext', 'collections.deque') for z in T.subterms(s[2])):
             continue
-        c = _fuse_nested(_unzip_comp(s))
+        else:
+            c = _fuse_nested(_unzip_comp(s))
         k, v = c[2][1]
         row = None
         if v[0] == 'call' and v[1] == ('ext', 'collections.deque') and k[0] == 'fmt' and k[1] == ('str', '%s_%s') and k[2][0] == 'tuple' and len(k[2][1]) == 2:
@@ -607,9 +611,17 @@ def s4_entry(ctx):
     newp = [p for p in normal(ps) if any(c[0] == 'cmp' and c[1] == 'in' and not v for c, v, _ in p.conds)]
     ctx.require(len(newp) >= 1, 'C16.S4', 'buffers for an unseen asset are created on its first observation', ctx.fn(qn).site(), key='C16.S4|create-on-first')
     for p in newp:
-        ups = [w for w in heap_writes(p, 'prices') if w.how == 'mut:update']
-        ok = len(ups) == 1 and ups[0].value[2][1][0] == 'comp'
-        ctx.require(ok, 'C16.S4', 'the new asset\'s buffers are fresh, empty deques', ups[0].site if ups else ctx.fn(qn).site(), key='C16.S4|fresh')
+        # whatever creates the new asset's buffers on this path (an update with a dict comprehension, element assignments in a loop): every deque built is empty
+        made = []
+        for w in heap_writes(p, 'prices'):
+            if w.how in ('mut:append', 'mut:appendleft') or w.value is None:
+                continue            # the observation itself being appended
+            made += [s_ for s_ in T.subterms(w.value) if s_[0] == 'call' and s_[1] == ('ext', 'collections.deque')]
+        if not made:
+            ctx.undecided('C16.S4', 'the new asset\'s buffers are fresh, empty deques', ctx.fn(qn).site(), 'no deque construction found on the first-observation path')
+        else:
+            seeded = [d_ for d_ in made if d_[2] and d_[2][0] not in (('list', ()), ('tuple', ()))]
+            ctx.require(not seeded, 'C16.S4', 'the new asset\'s buffers are fresh, empty deques', ctx.fn(qn).site(), [fmt(d_)[:100] for d_ in seeded], key='C16.S4|fresh')
     reach = ctx.M.reachable([f.qn for f in ctx.M.funcs.values() if f.path.startswith('qstrader/signals/')])
     for q in ('CSVDailyBarDataSource.get_assets_historical_closes', 'BacktestDataHandler.get_assets_historical_range_close_price'):
         if q in ctx.M.funcs:
